@@ -369,7 +369,7 @@ def build(tier, seed):
     def call(ns, a):
         return a["self"].__setitem__(a["idx"], a["val"])
     from props import C12ctor
-    obs.extend(C12ctor.build(vprop.enum_ob("x", [], lambda: range(3), _check_ctor, "").run if "_check_ctor" in globals() else fbh))
+    obs.extend(C12ctor.build(vprop.enum_ob("x", [], lambda: [0], _check_ctor, "").run))
     obs.append(vprop.fn_ob("C12", C_SET, {}, call=call, setup=_setup, fallback=fbh,
                            desc="Wavefunction.__setitem__: accepted => exactly the updated vector and Ok; rejected => ValueError and the vector element-wise unchanged "
                                 "(for every vector, index, value; Ok abstracts _check_normalization)"))
